@@ -238,6 +238,8 @@ pub struct DLayer {
 	pub features: Vec<DFeature>,
 	pub n_keys: usize,
 	pub n_values: usize,
+	/// the layer message carries the version field (field 15; the schema declares it required)
+	pub has_version: bool,
 }
 
 fn decode_value(b: &[u8]) -> Result<MVal, String> {
@@ -273,6 +275,7 @@ pub fn decode_tile(bytes: &[u8]) -> Result<Vec<DLayer>, String> {
 		}
 		let mut lr = Rd { b: r.bytes()?, p: 0 };
 		let (mut name, mut extent, mut version) = (None, 4096u32, 1u32);
+		let mut has_version = false;
 		let mut keys: Vec<String> = vec![];
 		let mut values: Vec<MVal> = vec![];
 		let mut raw_features: Vec<(Option<u64>, Vec<u32>, u64, Vec<u8>)> = vec![];
@@ -304,7 +307,10 @@ pub fn decode_tile(bytes: &[u8]) -> Result<Vec<DLayer>, String> {
 				(3, 2) => keys.push(String::from_utf8(lr.bytes()?.to_vec()).map_err(|e| e.to_string())?),
 				(4, 2) => values.push(decode_value(lr.bytes()?)?),
 				(5, 0) => extent = lr.varint()? as u32,
-				(15, 0) => version = lr.varint()? as u32,
+				(15, 0) => {
+					version = lr.varint()? as u32;
+					has_version = true;
+				}
 				(_, w) => lr.skip(w)?,
 			}
 		}
@@ -324,7 +330,7 @@ pub fn decode_tile(bytes: &[u8]) -> Result<Vec<DLayer>, String> {
 			}
 			features.push(DFeature { id, gtype, geom, props, bad_tags: bad });
 		}
-		layers.push(DLayer { name: name.ok_or("layer without name")?, extent, version, features, n_keys: keys.len(), n_values: values.len() });
+		layers.push(DLayer { name: name.ok_or("layer without name")?, extent, version, features, n_keys: keys.len(), n_values: values.len(), has_version });
 	}
 	Ok(layers)
 }
